@@ -103,8 +103,11 @@ def run(ctx):
                 inline=lambda q, d: q == H + '._send_err', max_paths=40000)
     paths = it.run(fi)
     ctx.extra['paths'] = len(paths)
-    send_reply = fi.nested.get('send_reply')
-    send_error = fi.nested.get('send_error')
+    from ..loader import nested_by_role
+    send_reply = nested_by_role(fi, 'send_reply',
+                                ('passed_to', 'addCallback', 0))
+    send_error = nested_by_role(fi, 'send_error',
+                                ('passed_to', 'addErrback', 0))
     n_dispatch = n_early = 0
     exp = ('attr', msg, 'expectReply')
     o_term = None
@@ -201,8 +204,9 @@ def run(ctx):
                     for a in r[3]:
                         if kind(a) == 'funcref':
                             names.append((r[2][2], a[1].split('.')[-1]))
-                ok = names == [('addCallback', 'send_reply'),
-                               ('addErrback', 'send_error')]
+                ok = send_reply is not None and send_error is not None \
+                    and names == [('addCallback', send_reply.node.name),
+                                  ('addErrback', send_error.node.name)]
                 ctx.ob('C10.D3', Q, 'callback-then-errback', ok,
                        'a call expecting a reply must register send_reply '
                        'as callback and then send_error as errback (so that '
